@@ -233,6 +233,67 @@ theorem program_inside_in_force (p : List (Fin 3 × Nat)) (w : World) :
       w.log ++ [[enter w.glob p 0, enter w.glob p 1, enter w.glob p 2]] := by
   rw [programs_refine_spec, (spec_nest [.snap] p w).1]; rfl
 
+/-- **C16 at the level of histories, on the code's IR.** Run any LIST of top-level programs one after another from
+    any world (each caught by the caller; every program arbitrary: blocks nested in any order, setters of the other
+    settings, exceptions raised or caught anywhere). A setting whose non-scoped setter none of them calls is at its
+    initial value after EACH of them. -/
+theorem history_setting_restored (j : Fin 3) :
+    (ps : List (List Cmd)) → (w : World) → (∀ p ∈ ps, cmdsSets j p = false) →
+      ∀ w' ∈ historyStates Generated.CtxIR.managers ps w, w'.glob j = w.glob j
+  | [], _, _, w', hw' => by simp [historyStates] at hw'
+  | p :: ps, w, h, w', hw' => by
+    have hp := program_setting_restored j p w (h p (List.mem_cons_self ..))
+    simp only [historyStates, List.mem_cons] at hw'
+    rcases hw' with rfl | hw'
+    · exact hp
+    · rw [← hp]
+      exact history_setting_restored j ps _ (fun q hq => h q (List.mem_cons_of_mem _ hq)) w' hw'
+
+/-- … in particular at the end of the history, which is the final world of the program `try: p₁ …; try: p₂ …; …`
+    that the driver runs against the real code (`runHistory_eq_tryC`). -/
+theorem history_end_restored (j : Fin 3) (ps : List (List Cmd)) (w : World)
+    (h : ∀ p ∈ ps, cmdsSets j p = false) :
+    (runCmds Generated.CtxIR.managers (ps.map .tryC) w).1.glob j = w.glob j := by
+  rw [runHistory_eq_tryC]
+  cases hps : ps with
+  | nil => rfl
+  | cons p qs =>
+    have hl := historyStates_getLast Generated.CtxIR.managers ps w
+    rw [hps] at hl
+    simp only [reduceCtorEq, if_false] at hl
+    rw [← hps] at hl
+    exact history_setting_restored j ps w h _ (List.mem_of_getLast? hl) |> (hps ▸ ·)
+
+/-- **The older block histories ARE programs** (fragment without raising bodies — `runBlock` snapshots after an exit
+    also on the way out of an exception, which no `Cmd` program does): for managers of an accepted shape, running a
+    forest of `Block`s is running the program `blocksCmds bs` (each block followed by a snapshot), hence — by the
+    refinement — the IR-free specification of it: final settings, every snapshot, outcome. -/
+theorem blocks_are_programs (bs : List Block) (w : World) (h : blocksNoRaise bs = true) :
+    runBlocks Generated.CtxIR.managers bs w = specCmds (blocksCmds bs) w := by
+  rw [(runBlocks_as_cmds _ generated_good bs w h).1, programs_refine_spec]
+
+/-- `runBlocks_restores` on that fragment, now as a COROLLARY of the refinement (`program_setting_restored`): the
+    translated program calls no setter, so every setting is restored. -/
+theorem blocks_restored_via_refinement (bs : List Block) (w : World) (h : blocksNoRaise bs = true) :
+    (runBlocks Generated.CtxIR.managers bs w).1.glob = w.glob := by
+  funext j
+  rw [(runBlocks_as_cmds _ generated_good bs w h).1]
+  exact program_setting_restored j _ w (blocksCmds_noSet j bs)
+
+example : blocksNoRaise [.withB 0 3 [.withB 1 2 [.withB 2 9 [] false] false, .withB 2 5 [] false] false] = true ∧
+    (runBlocks Generated.CtxIR.managers
+      [.withB 0 3 [.withB 1 2 [] false] false] ⟨fun _ => 1, []⟩).1.log = [[3, 1, 1], [3, 2, 1], [3, 1, 1], [1, 1, 1]] := by
+  decide
+
+/-- Non-vacuity: a three-program history (raising, setters of settings 0 and 1, a caught exception); setting 2 is
+    never set by a setter and is 1 after each program; the hypothesis holds. -/
+example :
+    let ps : List (List Cmd) := [[.withC 2 4 [.set 0 2, .raise]], [.set 1 0, .withC 2 3 [.tryC [.withC 2 2 [.raise]], .snap]],
+      [.withC 0 3 [.withC 2 2 [.set 1 2]], .raise]]
+    (∀ p ∈ ps, cmdsSets 2 p = false) ∧
+    (historyStates Generated.CtxIR.managers ps ⟨fun _ => 1, []⟩).map (fun w => [w.glob 0, w.glob 1, w.glob 2]) =
+      [[2, 1, 1], [2, 0, 1], [2, 2, 1]] := by decide
+
 /-- Non-vacuity: a program with a setter of the block's own setting inside a nested, raising, partly caught body. -/
 example :
     let r := runCmds Generated.CtxIR.managers
